@@ -450,7 +450,7 @@ pub fn is_recursive(src: &str) -> bool {
         }
         let body = &src[open..=end.min(src.len() - 1)];
         let pat = format!("{name}(");
-        if body.contains(&pat) || body.contains(&format!("{name}@")) || body.contains(&format!("|> {name}")) {
+        if body.contains(&pat) || body.contains(&format!("{name}!(")) || body.contains(&format!("{name}@")) || body.contains(&format!("|> {name}")) {
             return true;
         }
     }
